@@ -135,6 +135,16 @@ CLAIMS["C18"] = dict(level="proof", suites=["C"], design="5/C18",
         "K1 (uniform can return max in binary64) is a known finding with a bit-exact PrimFloat witness.",
    note=COMMON_NOTE + "Names and opaque values are interned as integers; key order of the merged dict is not compared (the property does not speak about it). "
         "Axioms under the K1 witness: Coq's primitive float operations only.")
+CLAIMS["C12"] = dict(level="proof", suites=["F"], design="5/C12",
+   technique="Coq proofs: structural state machine of Fundamentals over an abstract price type (history preservation, shock effect, termination) + real-number laws; differential correspondence with recorded generation rounds; numeric algebraic probe of the return transform (partial: NumPy/SciPy/libm trusted)",
+   text="Theorems C12_* (props/C12.v): reads (across any number of generation chunks) never change a value at or below the regeneration point; a parameter change at t alters no value at times <= t; "
+        "a shock at t multiplies exactly the target's value at t and nothing else at times <= t, later values continue from the new level; reads terminate; over the reals prices are strictly positive, "
+        "the zero-volatility path is initial x exp(drift x t), regeneration continues the same path, and Cholesky rows give the configured volatilities and correlations. "
+        "The real Fundamentals (+ Market.change_fundamental_price) is driven through scripts of clock steps, parameter changes, shocks and reads ahead; every generation round is recorded and fed to the model, "
+        "all prices are compared exactly; each round is checked numerically against last kept x exp(cumsum(log-returns)) and an algebraic probe (stub NumPy generator: zeros and unit impulses) checks "
+        "drift and M M^T = vol C vol for the currently configured parameters after every change. PARTIAL: the distributional claim rests on NumPy's standard_normal (oracle).",
+   note=COMMON_NOTE + "Axioms under the real-number theorems: ClassicalDedekindReals.sig_not_dec, sig_forall_dec, FunctionalExtensionality.functional_extensionality_dep (Coq standard library Reals). "
+        "Admissible inputs: positive initial values, non-negative volatilities, positive-definite correlation matrices, changes at times within the generated horizon.")
 CLAIMS["C06"]["suites"] = ["M", "S"]
 CLAIMS["C04"]["suites"] = ["M", "S"]
 
